@@ -70,6 +70,9 @@ def gen_task(rng, o, nb, main):
         if rng.random() < o['p_cancelrl']:
             prog.append(['cancelrl', rng.randrange(nb)])
             continue
+        if nslots and rng.random() < o['p_redispatch']:
+            prog.append(['redispatch', rng.randrange(nslots), rng.randrange(nb)])
+            continue
         if r < 0.55 or nslots == 0:
             if rng.random() < o['p_parent'] and nslots:
                 prog.append(['dispatch_with_parent', rng.randrange(nb), rng.choice('ABC'), nslots, 0])
